@@ -146,10 +146,13 @@ pub fn record(rng: &mut SmallRng, n_events: usize, out: &mut dyn Write) {
     let ws: [&str; 6] = [" ", "\t", "\n", "\r", "\x0C", "\x0B"];
     let mut left = n_events;
     while left > 0 {
-        let nlen = rng.gen_range(0..=3);
+        // one case in five: a long pattern (around 8 / 16 / 32 / 64 bytes) or many repetitions of a short one
+        let long = rng.gen_range(0..16) == 0;
+        let nlen = if long { [7, 8, 9, 15, 16, 17, 31, 32, 33, 63, 64, 65][rng.gen_range(0..12)] } else { rng.gen_range(0..=3) };
         let n: String = (0..nlen).map(|_| alpha[rng.gen_range(0..3)]).collect();
         let mut s = String::new();
-        for _ in 0..rng.gen_range(0..4) {
+        let reps = if !long && rng.gen_range(0..16) == 0 { rng.gen_range(8..40) } else { rng.gen_range(0..4) };
+        for _ in 0..reps {
             s.push_str(&n);
         }
         if rng.gen_bool(0.5) {
